@@ -88,9 +88,17 @@ def r1(ctx):
         raise AnalysisError("the per-cluster list is not created by a single assignment")
     t0 = b.term(def_value(defs[0]), defs[0])
     K = Attr(Attr(m, "arguments"), "num_clusters")
+    sites = _mutation_sites(fi, name)
+    if t0 == Lst([]):
+        # created by a loop: `lists = []` + `for _ in range(K): lists.append([])` is the same list of K empty lists
+        t_ret = b.name_term(name, rets[0])
+        creators = [s_ for s_ in sites if isinstance(s_, ast.Call) and s_.func.attr == "append" and isinstance(s_.func.value, ast.Name)
+                    and s_.func.value.id == name and len(s_.args) == 1 and isinstance(s_.args[0], ast.List) and not s_.args[0].elts]
+        if isinstance(t_ret, Comp) and len(creators) == 1:
+            t0 = t_ret
+            sites = [s_ for s_ in sites if s_ is not creators[0]]
     ok = isinstance(t0, Comp) and not t0.conds and t0.elt == Lst([]) and t0.iter in (Range(0, K), Range(0, tm.length(Attr(m, "clusters"))))
     ctx.check(ok, fi, "one empty list per cluster id is created first", line=defs[0].lineno, role="init", expected="[[] for k in range(K)]", found=str(t0))
-    sites = _mutation_sites(fi, name)
     labels = Attr(m, "point_labels")
     good = []
     for s in sites:
